@@ -61,6 +61,9 @@ def extract_params():
     return c, stale, sig
 
 
+CH_ACTIONS = ["Q_Load", "S_Start", "S_DeqOk", "S_DeqFail", "S_Write", "S_EnqOk", "S_EnqFail",
+              "R_Empty", "R_DeqOk", "R_DeqFail", "R_Take", "R_EnqOk", "R_EnqFail", "Deliver"]
+
 # Which invariant of Channel.tla belongs to which property.
 INV_OF = {
     "C06": ["Fifo", "CellsAgree", "QueuesContiguous", "NoOverwrite"],
@@ -146,6 +149,7 @@ def scenarios(tier):
         sc("s1_r1_nested_full", 1, 1, 1, 1, 5, ["--nested", 1, "--preempt", 1, "--post-points"]),
         sc("s1_r1_nested_pre3_post", 1, 1, 1, 1, 3, ["--nested", 1, "--preempt", 1, "--post-points"]),
     ]
+    q.append(sc("s2x1_r1x6_pre4_p3", 2, 1, 1, 6, 4, ["--preempt", 3]))
     if tier == "thorough":
         q += [
             sc("s2x2_r1x3_p2", 2, 2, 1, 3, 0, ["--preempt", 2]),
@@ -172,8 +176,10 @@ def run_channel(chk, tier):
                 continue
             c = dict(cfg)
             c.update(consts)
+            second = what == mc_configs(tier, slots)[1][0]
             r = chk.model_check("Channel.tla", c, invariants=INV_OF[pid], what=what,
-                                timeout=tmo, workers=8 if tier == "quick" else 12)
+                                timeout=tmo, workers=8 if tier == "quick" else 12,
+                                expect=CH_ACTIONS if second else ())
             if r.violation:
                 chk.model_violation(r, "channel.rs as extracted (%s)" % what, c,
                                     extra={"signature": sig})
